@@ -7,6 +7,8 @@ integer saliencies.
 """
 import itertools
 
+import math
+
 import numpy as np
 
 from pbv import gen, mm
@@ -77,7 +79,20 @@ def single_estimators(d, ctx):
         N = d.int(3 * D + 2, 3 * D + 25)
     rng = d.rng()
     complex_ = which in ('ccsg', 'watson', 'cacg', 'cacg-fixed-point')
-    y, _ = mm.cluster_data(rng, lead, 2, N, D, complex_, d.choice([0.1, 0.5, 1.0]))
+    if which in ('watson', 'vmf') and d.aux(92).integers(0, 2) == 0:
+        # one cluster of any concentration (kappa about 3..300 instead of the
+        # few values two overlapping clusters give), dimension up to 8
+        aux = d.aux(93)
+        D = int(aux.integers(2, 9))
+        N = int(aux.integers(2 * D + 2, 2 * D + 40))
+        sigma = float(10.0 ** aux.uniform(-1.25, -0.25))
+        draw = gen.cnormal if complex_ else (lambda r, shape: r.normal(size=shape))
+        proto = gen.unit(draw(aux, (*lead, 1, D)))
+        amp = draw(aux, (*lead, N, 1)) if complex_ else 1.0 + 0.2 * aux.normal(size=(*lead, N, 1))
+        y = proto * amp + sigma * draw(aux, (*lead, N, D))
+        ctx.label('single-cluster')
+    else:
+        y, _ = mm.cluster_data(rng, lead, 2, N, D, complex_, d.choice([0.1, 0.5, 1.0]))
     offset = 1.0
     if not complex_:
         offset = d.choice([1.0, 1.0, 1e2, 1e4, 1e6])
@@ -114,7 +129,7 @@ def single_estimators(d, ctx):
                           oe.weighted_scatter(y[idx], w_all[idx]),
                           'ccsg-covariance', rtol=1e-10, atol=1e-12)
     elif which == 'watson':
-        mc = d.choice([500, 100, 20, 5])
+        mc = d.choice([500, 100, 20, 5, 1000])
         # the documented default (500) is also exercised by leaving it out
         tkw = {} if mc == 500 and d.aux(87).integers(0, 2) == 0 else dict(max_concentration=mc)
         ctx.label('defaults-omitted' if not tkw else 'explicit-options')
@@ -214,6 +229,55 @@ def _check_watson_concentration(D, kappa, lam_max, mc, clause, markers=1000):
         res = od.watson_mean_t(D, kappa) - lam_max
         require(abs(res) <= tol, f'{clause}-concentration-solves-ratio-equation',
                 f'D={D} kappa={kappa} E[t]-lambda_max={res:.3e}')
+
+
+@subcheck(SUBCHECKS, 'watson_ratio_inversion', quick=600, thorough=10000)
+def watson_ratio_inversion(d, ctx):
+    """the Watson concentration over its whole range: D orthonormal frames with
+    saliencies (l, (1-l)/(D-1), ...) have exactly the weighted scatter
+    U diag(l, ...) U^H, so the trainer has to return the kappa whose eigenvalue
+    ratio is l - for l = ratio(kappa*), kappa* log-uniform over
+    [1e-2, 2 max_concentration] (both clipping ends included), D 2..8, every
+    spline resolution.  Also through the mixture trainer (one class)."""
+    import pb_bss.distribution as dist
+    D = d.int(2, 8)
+    mc = d.choice([500, 500, 100, 20, 1000])
+    markers = d.choice([1000, 1000, 300, 2000])
+    kstar = 10.0 ** d.float(-2, math.log10(2 * mc))
+    lam_max = float(od.watson_mean_t(D, kstar))
+    rng = d.rng()
+    U = gen.haar_unitary(rng, D)
+    y = U.T.copy() * (10.0 ** rng.uniform(-3, 3, size=(D, 1)) *
+                      np.exp(2j * np.pi * rng.uniform(size=(D, 1))))
+    sal = np.full(D, (1 - lam_max) / (D - 1))
+    sal[0] = lam_max
+    sal = sal * 10.0 ** rng.uniform(-3, 3)
+    kw = {}
+    if mc != 500 or d.bool():
+        kw['max_concentration'] = mc
+    if markers != 1000 or d.bool():
+        kw['spline_markers'] = markers
+    how = d.choice(['trainer', 'trainer', 'mixture'])
+    ctx.describe(D=D, max_concentration=mc, spline_markers=markers, kappa_star=kstar,
+                 lambda_max=lam_max, how=how)
+    ctx.label(f'D={D}', how, 'kappa*>max' if kstar > mc else
+              ('kappa*<1' if kstar < 1 else ('kappa*<30' if kstar < 30 else 'kappa*>=30')))
+    if how == 'trainer':
+        m = ctx.lib(dist.ComplexWatsonTrainer(**kw).fit, y, saliency=sal)
+        kappa = float(np.asarray(m.concentration))
+        mode = np.asarray(m.mode)
+    else:
+        init = np.ones((1, D))
+        m = ctx.lib(dist.CWMMTrainer(**kw).fit, y, initialization=init, iterations=1,
+                    saliency=sal)
+        kappa = float(np.asarray(m.complex_watson.concentration).reshape(-1)[0])
+        mode = np.asarray(m.complex_watson.mode).reshape(-1, D)[0]
+    _check_watson_concentration(D, kappa, lam_max, mc, 'watson-grid', markers)
+    if lam_max - (1 - lam_max) / (D - 1) > 1e-6:
+        top = gen.unit(y[0])
+        require_close(np.outer(mode, mode.conj()), np.outer(top, top.conj()),
+                      'watson-mode-is-principal-eigenvector', atol=1e-8)
+    ctx.nontrivial(True)
 
 
 @subcheck(SUBCHECKS, 'bingham_estimator', quick=60, thorough=1000)
